@@ -103,6 +103,7 @@ func (c *controlConn) heartBeat() {
 		case <-timer.C:
 		}
 
+		verifYield("ctl.heartbeat", nil, 0)
 		resp, err := c.writeFrame(&writeOptionsFrame{})
 		if err != nil {
 			goto reconn
@@ -363,6 +364,7 @@ func (c *controlConn) registerEvents(conn *Conn) error {
 }
 
 func (c *controlConn) reconnect() {
+	verifYield("ctl.reconnect", nil, 0)
 	if atomic.LoadInt32(&c.state) == controlConnClosing {
 		return
 	}
@@ -534,6 +536,7 @@ func (c *controlConn) awaitSchemaAgreement() error {
 
 func (c *controlConn) close() {
 	if atomic.CompareAndSwapInt32(&c.state, controlConnStarted, controlConnClosing) {
+		verifYield("ctl.close", nil, 0)
 		c.quit <- struct{}{}
 	}
 
